@@ -6,17 +6,18 @@ import ast
 from ..loader import AnalysisError, dotted, norm, walk_no_defs
 from ..report import RuleReport
 from ..rules.common import rule_chain, run_flags
-from ..rules.leftrec import rule_left_call_table, rule_nullable_table
+from ..rules.leftrec import rule_all_small_graphs, rule_left_call_table, rule_nullable_table
 
 LEVEL = 'other'
-TECHNIQUE = ('static: interpretation of the nullable methods and of the left-call analysis on stand-in model trees against '
-             'the table read off the parse primitives, guarded-marking and error-condition path rules, R-CHAIN')
+TECHNIQUE = ('static: interpretation of the nullable methods, of the left-call analysis and of the SCC/leader marking on '
+             'stand-in model trees - exhaustive over all rule graphs with up to 3 rules - against the table read off the parse '
+             'primitives and a graph oracle (every cycle has a marked rule), guarded-marking and error-condition path rules, R-CHAIN')
 LEVEL_TEXT = ('Decides from the source: class identity of the model classes is nominal (R-CHAIN); is_nullable() of every '
               'expression class and the left-call extraction of the analysis agree with the documented table on a complete set '
               'of expression shapes over {call, token, optional, closure, positive closure, lookaheads, group, named, cut, void, '
               'constant, pattern, join}; marking of rules happens only under the SCC/self-loop guards after a reset; the grammar '
               'error is raised exactly when left-recursive rules exist and left recursion is off; the runtime guard exists. '
-              'Correctness of the SCC/leader selection over all rule graphs and bounded recursion depth are not decided.')
+              'The marking algorithm is decided exhaustively for all graphs with up to 3 rules (the quantifier of the property); larger graphs and actual recursion depth are not decided.')
 LEVEL_NOTE = ('CPython: typing.Protocol.__init_subclass__ clears _is_protocol only if every __init_subclass__ before it in the MRO '
               'chains to super(). The nullable table (DESIGN appendix C) is the oracle.')
 EXPLANATION = ('Static analysis of /repo sources, TatSu not imported. Model methods are interpreted by the whitelisted evaluator '
@@ -144,4 +145,8 @@ def r3_error_condition(a, tier):
     return rep
 
 
-RULES = [r_chain, r1a, r1b, r2_guarded_marking, r3_error_condition]
+def r4_small_graphs(a, tier):
+    return rule_all_small_graphs(a, 'C16.R4', tier)
+
+
+RULES = [r_chain, r1a, r1b, r2_guarded_marking, r3_error_condition, r4_small_graphs]
